@@ -49,6 +49,9 @@ CHECKS = {
  "C12": dict(cat="proof", tech="contract-based deductive: only the two per-call clauses — simulated sensor models as ring identities (ALG) and the 6-state write-back of accepted corrections with sqrt_correct by contract",
              text="PARTIAL: the noise-free simulated accelerometer/magnetometer equal R(r)^T times a fixed world vector of the configured magnitude; an accepted magnetometer/accelerometer correction updates every gyro-bias component by its Kalman increment. The convergence clause over the message history is not decided by any contract.",
              note="A-GRAPH; real arithmetic; callee contract C10.sqrt_correct; closed-loop convergence / no-NaN-over-history clause NOT decided (whole-trajectory property)", ref="5/C12"),
+ "C09": dict(cat="translation_validation", tech="structural translation validation: generated C and the Function's instruction list are symbolically executed into one hash-consed term DAG and must be identical terms per output; function sets, arity, sparsity layouts, headers; gcc/g++ build; differential run of the compiled object against the CasADi VM",
+             text="Every code-generation entry point (codegen.generate_code, algorithms.generate_code, the three model generate_code wrappers and their __main__ export lists) on every shipped equation set and an option lattice: generation succeeds, the exported function set equals the equation set, every function body is term-identical to the symbolic function (hence equal for all inputs, incl. non-finite values in unselected branches), layouts agree, the file compiles and the object agrees bit-for-bit with the VM on finite special-value inputs.",
+             note="trusted per-opcode spelling table; FMIN/FMAX differ between VM and C only on NaN operands (CasADi caveat, listed); option combinations CasADi itself rejects are out of scope", ref="5/C09"),
 }
 NA = {
  "C17": "closed-loop convergence of the hybrid cascade from an envelope of initial conditions is a whole-trajectory property; no pre/postcondition on a function of /repo expresses it short of a Lyapunov certificate (its per-call ingredients are C13, C15, C16)",
